@@ -414,5 +414,11 @@ fn adc_mul_limbs(lhs: &[Limb], rhs: &[Limb], out: &mut [Limb]) -> Limb {
     carry
 }
 
+/// Verification hook: forwards to the private [`adc_mul_limbs`].
+#[cfg(all(crypto_bigint_verif, feature = "alloc"))]
+pub(crate) fn verif_adc_mul_limbs(lhs: &[Limb], rhs: &[Limb], out: &mut [Limb]) -> Limb {
+    adc_mul_limbs(lhs, rhs, out)
+}
+
 impl_uint_karatsuba_multiplication!(128, 64, 32, 16, 8);
 impl_uint_karatsuba_squaring!(128, 64, 32);
